@@ -887,8 +887,31 @@ def assembly(facts, rep, R4):
                 for y in walk(d):
                     if y[0] == "call" and y[1].endswith("decode_pixel_data"):
                         dec = y
+        unk = None
         if dec is None:
-            bad = bad or "pixel data is not the decoder's output"
+            # through the fully expanded term (the value may come out of a helper that was expanded in place)
+            full_pd = None
+            for bi_, si_, st_ in b.stmts():
+                if st_["k"] == "assign" and st_["rv"]["k"] == "agg" and st_["rv"].get("def") == "mila::texture::Texture":
+                    full_pd = dict(zip(st_["rv"]["field_names"], [b.term_of_operand(o) for o in st_["rv"]["fields"]])).get("pixel_data")
+            seen_v, todo, found, raw_payload = set(), [full_pd] if full_pd else [], False, False
+            while todo:
+                z = todo.pop()
+                for y in walk(z):
+                    if y[0] == "call" and y[1].endswith("decode_pixel_data"):
+                        found = True
+                    if y[0] == "call" and y[1].endswith("vec::from_elem"):
+                        raw_payload = True
+                    if y[0] == "var" and y[1] not in seen_v and len(seen_v) < 20:
+                        seen_v.add(y[1])
+                        for (bi2, si2, kind, payload) in b.defs().get(y[1], []):
+                            todo.append(b.term_of_rvalue(payload["rv"]) if kind == "assign" else b.term_of_call(payload, bi2))
+            if found:
+                unk = "the decoder call feeding Texture.pixel_data is reached through a helper; its arguments are not re-checked here"
+            elif raw_payload:
+                bad = bad or "pixel data is not the decoder's output"
+            else:
+                unk = "where Texture.pixel_data comes from was not recognised"
         else:
             a_w, a_h = origin(dec[2][1]), origin(dec[2][2])
             if not ({"width", ".width"} & a_w) or not ({"height", ".height"} & a_h):
@@ -905,6 +928,8 @@ def assembly(facts, rep, R4):
             bad = bad or "file name is %s" % fmt(fnm)[:40]
         if bad:
             rep.violation(R4, fn, "assembly", "%s: %s" % (fn, bad), where)
+        elif unk:
+            rep.inconc(R4, "%s: %s" % (fn, unk))
         else:
             rep.ok(R4, {"fn": fn, "texture": "width<-width, height<-height, pixels<-decode(own payload), name<-decoded name"})
             rep.ok(R4, {"fn": fn, "decoder_args": "(payload, width, height, pixel_format)"})
